@@ -105,7 +105,10 @@ def prelude(unit="METRIC", runspec_extra="", dims=None, phases=("OIL", "WATER", 
 class Model:
     """what exists at the current point of the schedule"""
 
-    def __init__(self):
+    def __init__(self, dims=None, blocked=()):
+        # dims / blocked (columns (i, j) no well may touch, e.g. holding inactive cells) are used by C05 only
+        self.nx, self.ny, self.nz = dims or (NX, NY, NZ)
+        self.blocked = set(tuple(b) for b in blocked)
         self.wells = {}        # name -> dict(group, kind 'P'|'I', i, j, conns: [k...], injtype)
         self.groups = {"FIELD": None}   # name -> parent
         self.wlists = {}
@@ -117,6 +120,14 @@ class Model:
 
     def clone(self):
         return copy.deepcopy(self)
+
+
+def _free_column(m, i, j):
+    """(i, j) itself unless the column is blocked; then a deterministic free column (no extra draws)"""
+    if (i, j) not in m.blocked:
+        return i, j
+    free = [(a, b) for a in range(1, m.nx + 1) for b in range(1, m.ny + 1) if (a, b) not in m.blocked]
+    return free[(i * 31 + j) % len(free)]
 
 
 def fnum(x):
@@ -135,7 +146,7 @@ def kw_welspecs(draw, m):
     grp = draw(st.sampled_from([g for g in m.groups if g != "FIELD"] + ["G1", "G2", "G3"]))
     if grp not in m.groups:
         m.groups[grp] = "FIELD"
-    i, j = draw(st.integers(1, NX)), draw(st.integers(1, NY))
+    i, j = _free_column(m, draw(st.integers(1, m.nx)), draw(st.integers(1, m.ny)))
     phase = "OIL" if kind == "P" else draw(st.sampled_from(["WATER", "GAS"]))
     depth = draw(st.sampled_from(["1*", "2005", "2010.5"]))
     extra = draw(st.sampled_from(["", " 1* 'STD' 'SHUT' 'YES'", " 0.5", " 1* 'STD' 'STOP' 'NO' 1"]))
@@ -147,16 +158,21 @@ def kw_welspecs(draw, m):
 def kw_compdat(draw, m):
     w = draw(st.sampled_from(sorted(m.wells)))
     W = m.wells[w]
-    k1 = draw(st.integers(1, NZ))
-    k2 = draw(st.integers(k1, NZ))
+    k1 = draw(st.integers(1, m.nz))
+    k2 = draw(st.integers(k1, m.nz))
     state = draw(st.sampled_from(["OPEN", "OPEN", "SHUT"]))
     ij = draw(st.sampled_from(["well", "other"]))
     if ij == "well":
         i, j, itxt = W["i"], W["j"], "2*" if draw(st.booleans()) else "%d %d" % (W["i"], W["j"])
     else:
-        i, j = draw(st.integers(1, NX)), draw(st.integers(1, NY))
+        i, j = _free_column(m, draw(st.integers(1, m.nx)), draw(st.integers(1, m.ny)))
         itxt = "%d %d" % (i, j)
     tail = draw(st.sampled_from(["1* 1* 0.2", "1* 10.5 0.2", "1* 1* 0.3 1* 2.5", "1* 1* 0.2 1* 0 1* 'X'", "2 1* 0.25 500"]))
+    if W.get("msw") and W["conns"]:
+        # a multisegment well gets no new connections (they would lack a COMPSEGS entry): re-specify an existing one
+        i, j, k1 = W["conns"][(k1 * 7 + k2) % len(W["conns"])]
+        k2 = k1
+        itxt = "%d %d" % (i, j)
     for k in range(k1, k2 + 1):
         if (i, j, k) not in W["conns"]:
             W["conns"].append((i, j, k))
@@ -453,9 +469,97 @@ GENERATORS = {
 }
 
 
+# ---- generators used by C05 only (not part of the default pool, so C03/C04/C11 draw exactly as before) ----
+@st.composite
+def kw_msw(draw, m):
+    """turn a well with connections into a multisegment well: WELSEGS (top segment + 2..4 segments, optional side
+    branch) and a COMPSEGS entry for every connection it has"""
+    cands = [w for w in _wells(m) if not m.wells[w].get("msw")]
+    w = draw(st.sampled_from(cands))
+    W = m.wells[w]
+    nseg = draw(st.integers(2, 4))
+    side = draw(st.booleans())
+    seglen = draw(st.sampled_from([10, 25.5, 40]))
+    diam = draw(st.sampled_from([0.15, 0.2, 0.3]))
+    rough = draw(st.sampled_from([0.0001, 0.00015, 0.001]))
+    pdrop = draw(st.sampled_from(["HFA", "HF-", "H--"]))
+    W["pdrop"] = pdrop
+    txt = "WELSEGS\n '%s' %s %s 1* 'INC' '%s' /\n" % (w, draw(st.sampled_from(["2000", "2001.5"])), draw(st.sampled_from(["0", "5"])), pdrop)
+    for s in range(2, nseg + 2):
+        txt += " %d %d 1 %d %s %s %s %s /\n" % (s, s, s - 1, fnum(seglen), fnum(seglen / 2), fnum(diam), fnum(rough))
+    last = nseg + 1
+    if side:
+        last += 1
+        txt += " %d %d 2 2 %s 1 %s %s /\n" % (last, last, fnum(seglen), fnum(diam), fnum(rough))
+    txt += "/\nCOMPSEGS\n '%s' /\n" % w
+    total = nseg * seglen
+    for c, (i, j, k) in enumerate(W["conns"]):
+        if side and c == len(W["conns"]) - 1 and len(W["conns"]) > 1:
+            txt += " %d %d %d 2 %s %s /\n" % (i, j, k, fnum(seglen + 1), fnum(seglen + 4))
+        else:
+            a = (c * 7.0) % max(total - 4, 1)
+            txt += " %d %d %d 1 %s %s /\n" % (i, j, k, fnum(a), fnum(a + 3))
+    txt += "/\n"
+    W["msw"] = True
+    W["nseg"] = last
+    return txt
+
+
+@st.composite
+def kw_wsegvalv(draw, m):
+    w = draw(st.sampled_from(sorted(w for w, W in m.wells.items() if W.get("msw") and W.get("pdrop") != "H--")))
+    seg = draw(st.integers(2, m.wells[w]["nseg"]))
+    return "WSEGVALV\n '%s' %d %s %s /\n/\n" % (w, seg, fnum(draw(st.sampled_from([0.7, 0.85, 1.0]))), fnum(draw(st.sampled_from([0.002, 0.01]))))
+
+
+@st.composite
+def kw_network(draw, m):
+    groups = sorted(g for g in m.groups if g != "FIELD" and m.groups[g] == "FIELD")[:2]
+    txt = "BRANPROP\n" + "".join(" '%s' 'FIELD' %s /\n" % (g, draw(st.sampled_from(["9999", "9999"]))) for g in groups) + "/\n"
+    txt += "NODEPROP\n 'FIELD' %s /\n" % fnum(draw(press))
+    for g in groups:
+        txt += " '%s' 1* '%s' '%s' /\n" % (g, draw(st.sampled_from(["NO", "NO", "YES"])), draw(st.sampled_from(["NO", "YES"])))
+    return txt + "/\n"
+
+
+@st.composite
+def kw_wconprod_uda(draw, m):
+    w = draw(st.sampled_from(_wells(m, "P")))
+    u = draw(st.sampled_from(sorted(k for k, v in m.udqs.items() if v in ("F", "W"))))
+    mode = draw(st.sampled_from(["ORAT", "WRAT", "GRAT", "LRAT"]))
+    vals = ["1*"] * 4
+    vals[["ORAT", "WRAT", "GRAT", "LRAT"].index(mode)] = "'%s'" % u
+    return "WCONPROD\n '%s' 'OPEN' '%s' %s 1* %s /\n/\n" % (w, mode, " ".join(vals), fnum(draw(press)))
+
+
+@st.composite
+def kw_gconprod_uda(draw, m):
+    g = draw(st.sampled_from(sorted(m.groups)))
+    u = draw(st.sampled_from(sorted(k for k, v in m.udqs.items() if v == "F")))
+    return "GCONPROD\n '%s' 'ORAT' '%s' 3* 'RATE' /\n/\n" % (g, u)
+
+
+@st.composite
+def kw_wconinjh(draw, m):
+    w = draw(st.sampled_from(_wells(m, "I")))
+    return "WCONINJH\n '%s' '%s' '%s' %s %s /\n/\n" % (w, m.wells[w]["injtype"], draw(st.sampled_from(["OPEN", "OPEN", "STOP", "SHUT"])),
+                                                       fnum(draw(rate)), fnum(draw(press) + 100))
+
+
+EXTRA_GENERATORS = {
+    "msw": (kw_msw, lambda m: any(not W.get("msw") for w, W in m.wells.items() if W["conns"]) and
+            sum(1 for W in m.wells.values() if W.get("msw")) < 2),
+    "wsegvalv": (kw_wsegvalv, lambda m: any(W.get("msw") and W.get("pdrop") != "H--" for W in m.wells.values())),
+    "network": (kw_network, lambda m: any(g != "FIELD" and p == "FIELD" for g, p in m.groups.items())),
+    "wconprod_uda": (kw_wconprod_uda, lambda m: bool(_wells(m, "P")) and any(v in ("F", "W") for v in m.udqs.values())),
+    "gconprod_uda": (kw_gconprod_uda, lambda m: any(v == "F" for v in m.udqs.values())),
+    "wconinjh": (kw_wconinjh, lambda m: bool(_wells(m, "I"))),
+}
+
+
 @st.composite
 def gen_kw(draw, m, kind):
-    g, pre = GENERATORS[kind]
+    g, pre = GENERATORS[kind] if kind in GENERATORS else EXTRA_GENERATORS[kind]
     if not pre(m):
         return None
     return draw(g(m))
